@@ -40,6 +40,9 @@ func newRealFS(fs *faultFS) *realFS {
 		}
 		r.orig[f.path] = string(f.data)
 	}
+	// markers for the syscall-level footprint check (checks/osfoot.py runs the harness under strace): what the
+	// operation itself does lies between these two failing stat calls
+	os.Stat("/VH-MARK-BEGIN" + root)
 	return r
 }
 
@@ -49,6 +52,7 @@ func (r *realFS) virt(p string) string { return strings.TrimPrefix(p, r.root) }
 
 // changedList walks the tree: files whose content differs from the initial state or are new; deleted files as "path:DELETED".
 func (r *realFS) changedList() string {
+	os.Stat("/VH-MARK-END" + r.root)
 	var out []string
 	seen := map[string]bool{}
 	filepath.Walk(r.root, func(p string, info os.FileInfo, err error) error {
@@ -119,6 +123,44 @@ func p2run(w []string) string {
 			}
 			err := par2.VerifCreate(fs, parPath, files, opts)
 			return fsResult(errClass(err, nil), "-", nil, fs)
+		case "createseq":
+			// several Creates in ONE process, each from its own current directory with paths relative to it:
+			// nsteps, then per step  cwd par slice nparity g nf files..., then FS.  (State kept between calls -
+			// a cached working directory, a table built once - is invisible to one call per process.)
+			n := atoi(w[0])
+			w = w[1:]
+			type step struct {
+				cwd, par string
+				opts     par2.CreateOptions
+				files    []string
+			}
+			steps := make([]step, n)
+			for k := range steps {
+				nf := atoi(w[5])
+				st := step{cwd: unhex(w[0]), par: unhex(w[1]), opts: par2.CreateOptions{SliceByteCount: atoi(w[2]), NumParityShards: atoi(w[3]), NumGoroutines: atoi(w[4])}}
+				for i := 0; i < nf; i++ {
+					st.files = append(st.files, unhex(w[6+i]))
+				}
+				steps[k] = st
+				w = w[6+nf:]
+			}
+			fs, _ := parseFS(w)
+			if mode != "real" {
+				panic("createseq: real mode only")
+			}
+			r := newRealFS(fs)
+			defer r.close()
+			wd0, _ := os.Getwd()
+			defer os.Chdir(wd0)
+			var cls []string
+			for _, st := range steps {
+				if err := os.Chdir(filepath.Join(r.root, st.cwd)); err != nil {
+					panic(err)
+				}
+				cls = append(cls, errClass(par2.Create(st.par, st.files, st.opts), nil))
+			}
+			os.Chdir(wd0)
+			return fmt.Sprintf("%s counts=- repaired= trace= changed=%s", strings.Join(cls, "|"), r.changedList())
 		case "verify":
 			indexPath := unhex(w[0])
 			g := atoi(w[1])
